@@ -174,6 +174,31 @@ fn directed_inputs() -> Vec<(String, Vec<u8>)> {
 pub fn run(cfg: &Cfg, rep: &mut Report) {
     rep.rule = "every input is run through parse_bytes (recording consumer, H1 step budget 16*words+256 as the termination verdict, H2 decoder events checked for offsets beyond the buffer), parse_words (word-aligned inputs, exact-size boxed slices), load_bytes and, for accepted modules, assemble + disassemble, each under catch_unwind: well-formed modules of every opcode, 16 structured mutators, pure noise of lengths 0..4096, all sequences of up to 3 'interesting' words after a header, directed inputs (word counts past the end before strings, every opcode as OpSpecConstantOp payload, constants of undeclared/non-numeric/unsupported types), decoder request scripts with limits up to usize::MAX. distinct_nontrivial = distinct (input class, outcome) pairs".into();
     let miri = cfg.mode == "miri";
+    if miri {
+        // Miri stage: inputs come from the corpus file written by the debug stage, so that the (slow,
+        // irrelevant) generators and the reference database are not interpreted.
+        let path = cfg.corpus.clone().unwrap_or_default();
+        let text = match std::fs::read_to_string(&path) {
+            Ok(t) => t,
+            Err(e) => {
+                rep.inconclusive.push(format!("cannot read corpus {}: {}", path, e));
+                return;
+            }
+        };
+        // decode lazily: hex decoding is expensive under Miri, each shard only decodes its share
+        let items: Vec<(&str, &str)> = text.lines().filter_map(|l| l.split_once('\t')).collect();
+        let items_ref = &items;
+        run_stage(cfg, rep, "corpus", items.len() as u64, |idx, _rng, r| {
+            let (label, hex) = items_ref[idx as usize];
+            let bytes = &crate::util::unhex_bytes(hex);
+            let rp = || crate::util::replay_ref(cfg, "corpus", idx).set("binary", hex);
+            if exercise(bytes, r, &rp, label, true) {
+                r.nontrivial(format!("corpus:{}", label.split(' ').next().unwrap_or("")));
+            }
+        });
+        rep.sample(Json::obj().set("miri_corpus_inputs", items.len()).set("what", "parse_bytes and parse_words (unsafe slice reinterpretation) interpreted by Miri"));
+        return;
+    }
     let d = db();
     let n_ops = d.insts.len() as u64;
 
@@ -302,4 +327,54 @@ pub fn run(cfg: &Cfg, rep: &mut Report) {
         r.count("decoder_requests", scratch.counters.get("requests").copied().unwrap_or(0));
     });
     rep.sample(Json::obj().set("directed_inputs", directed.len()).set("first", directed[0].0.clone()));
+    // corpus for the Miri stage
+    if let Some(path) = &cfg.corpus {
+        let mut out = String::new();
+        let mut push = |label: &str, b: &[u8]| {
+            out.push_str(&label.replace('\t', " "));
+            out.push('\t');
+            out.push_str(&hex_bytes(b));
+            out.push('\n');
+        };
+        for (l, b) in directed.iter().step_by(2) {
+            if b.len() <= 120 {
+                push(l, b);
+            }
+        }
+        let total = if cfg.tier_thorough { 1600 } else { 320 };
+        for i in 0..total {
+            let mut rng = Rng::for_case(cfg.seed, "corpus", i);
+            // tiny base: header, one numeric type, one instruction of a random opcode
+            let b = {
+                let mut gen = crate::geninst::Gen::new(1000);
+                let mut insts = vec![gen.type_decl(*rng.pick(&crate::geninst::supported_num_types()))];
+                for _ in 0..2 {
+                    let ri = &d.insts[rng.below(d.insts.len())];
+                    if let Some(x) = gen.inst(&mut rng, ri, crate::geninst::Form::Random) {
+                        gen.observe(&x);
+                        insts.push(x);
+                    }
+                }
+                let (words, _m, starts) = crate::genmod::encode_module(0x0001_0600, 0, gen.next_id, &insts, None);
+                crate::mon::c03::BaseMod { words, starts, insts }
+            };
+            let m = (i % (mutate::N_MUTATORS as u64 + 1)) as usize;
+            let (bytes, label) = if m == mutate::N_MUTATORS { (words_to_bytes(&b.words), "none".to_string()) } else { mutate::mutate(&mut rng, &Base { words: &b.words, starts: &b.starts, insts: &b.insts }, m) };
+            if bytes.len() <= 400 {
+                push(&format!("m{} {}", m, label), &bytes);
+            }
+        }
+        for i in 0..40u64 {
+            let mut rng = Rng::for_case(cfg.seed, "corpus-noise", i);
+            let len = rng.below(120);
+            let mut b: Vec<u8> = (0..len).map(|_| rng.u32() as u8).collect();
+            if b.len() >= 4 {
+                b[..4].copy_from_slice(&gram::MAGIC.to_le_bytes());
+            }
+            push("noise", &b);
+        }
+        if let Err(e) = std::fs::write(path, out) {
+            rep.inconclusive.push(format!("cannot write corpus {}: {}", path, e));
+        }
+    }
 }
